@@ -385,6 +385,7 @@ def neighbourhood(rng, case):
     """a tree shape diverged from the model: look for a catalog on which the *result* is wrong"""
     kinds = case["kinds"]
     trees = [list(c[1:]) for c in case["cmds"] if c[0] != "doc"]
-    _, cfg, docs = qtree.gen_catalog(rng, rng.random() < 0.5, kinds=kinds)
+    twocat = any(c[1] == "twocat" for c in case["cfg"])       # same-named indexes stay same-named
+    _, cfg, docs, _ = qtree.gen_catalog_x(rng, rng.random() < 0.5, kinds=kinds, twocat=twocat)
     return {"session": "query", "cfg": cfg, "kinds": kinds,
             "cmds": docs + [["apply"] + t for t in trees]}
